@@ -37,6 +37,7 @@ type Profile struct {
 	UnnamedPct  int    // % of signatures with unnamed parameters
 	GopathPct   int    // % of worlds in GOPATH+vendor layout
 	ModPath     string // module-relative import path prefix of the world (default example.com/w, own go.mod)
+	ShadowPct   int    // % of signatures in which earlier parameters are named like the packages a later parameter type mentions
 	Evolve      bool   // also render a second version of the source (first requested literal interface gains a method)
 	MultiRefPct int    // % bias towards dependency interfaces whose one method type mentions several same-named packages
 }
@@ -837,6 +838,42 @@ func (g *G) sig(depth int, inner bool) *Sig {
 		}
 		s.Params = append(s.Params, p)
 	}
+	if named && !inner && np >= 2 && g.Chance(g.P.ShadowPct) {
+		// earlier parameters named like the packages a later parameter's type mentions: the import is registered
+		// after the names were chosen, so they must be renamed retroactively (all of them)
+		j := np - 1
+		// make the later parameter mention two different packages in one type (both imports arrive together)
+		if g.Chance(60) {
+			a, b := g.named(tyCtx{needCmp: true, depth: depth + 1}), g.named(tyCtx{depth: depth + 1})
+			if a.Pkg != b.Pkg {
+				if g.Chance(50) {
+					s.Params[j].T = &Ty{K: KMap, Key: a, Elem: b}
+				} else {
+					s.Params[j].T = &Ty{K: KFunc, Sig: &Sig{Params: []Param{{T: a}}, Results: []Param{{T: b}}}}
+				}
+			}
+		}
+		var pkgs []string
+		seenP := map[string]bool{}
+		s.Params[j].T.Walk(func(t *Ty) {
+			if t.K == KNamed && t.Pkg != nil && t.Pkg != g.src && !seenP[t.Pkg.Name] {
+				seenP[t.Pkg.Name] = true
+				pkgs = append(pkgs, t.Pkg.Name)
+			}
+		})
+		for i := 0; i < j && i < len(pkgs); i++ {
+			n := pkgs[i]
+			if !used[n] && !IsKeyword(n) && !Predeclared[n] && !g.declNames[n] {
+				delete(used, s.Params[i].Name)
+				s.Params[i].Name = n
+				used[n] = true
+				g.label("param:shadows-later-import")
+			}
+		}
+		if len(pkgs) >= 2 && j >= 2 {
+			g.label("param:shadows-two-later-imports")
+		}
+	}
 	if named {
 		// F-F also arises between a blank parameter's type-derived name and a user name (iD / Id -> ID)
 		keys := map[string]int{}
@@ -1016,6 +1053,9 @@ func (g *G) genTParams(skipEnsure bool) ([]TParamDecl, bool) {
 			}
 		case k == 5:
 			tp.ConSrc, tp.Kind, tp.Cmp = "~int | ~string", "union-inline", true
+			if g.Chance(35) {
+				tp.ConSrc, tp.Kind = "interface{ comparable; ~int | ~string }", "element-then-union"
+			}
 		case k == 6:
 			tp.ConSrc, tp.Kind, tp.Cmp = "int | string | float64", "union-inline", true
 			// named (non-interface) types as union terms: their packages must be imported and qualified
